@@ -65,6 +65,20 @@ fn main() {
         let hays = vec!["aab bbb abb", "aabbb", "xay xby", "ab", "xyxy", "yxy", "Ab aB AB", "zz", "abab", "b"];
         let qs = vec![(0, 0, 0), (0, 1, 0), (1, 2, 0), (1, 3, 1), (2, 4, 1), (2, 5, 0), (3, 6, 0), (3, 7, 0), (0, 8, 2), (1, 9, 0)];
         (specs.into_iter().map(|(a, b)| (a.to_string(), b.to_string())).collect(), hays.into_iter().map(|s| s.to_string()).collect(), qs)
+    } else if seed % 1000 == 996 {
+        // fixed "first use" scenario: two threads run their FIRST search on the same freshly
+        // compiled object at the same time (lazily built prefilters or tables, racy
+        // "initialised" flags). A class with 40 separate intervals (big enough for any
+        // "large class" threshold, cheap to compile), a literal-prefixed alternation, a digit run.
+        let mut class = String::from("[");
+        for k in 0..40u32 {
+            class.push(char::from_u32(0x100 + 2 * k).unwrap());
+        }
+        class.push_str("]+");
+        let specs = vec![(class, String::new()), ("(?:abc|abd)x".to_string(), String::new()), ("\\d+z".to_string(), String::new())];
+        let hays = vec!["12 \u{100}\u{102} 3", "zzabdx", "x 77z", "\u{14e}\u{101}\u{100}"];
+        let qs = vec![(0, 0, 0), (1, 1, 0), (2, 2, 0), (0, 0, 0), (1, 1, 0), (2, 2, 0), (0, 3, 0), (1, 1, 0), (2, 2, 0)];
+        (specs, hays.into_iter().map(|s| s.to_string()).collect(), qs)
     } else if seed % 1000 == 997 {
         // fixed "class with gaps" scenario: multi-interval classes probed by one thread with
         // members that alternate between intervals and by the others with code points that lie
